@@ -119,69 +119,78 @@ Definition c08_state (sv : sview) (d : cdump) : nat :=
    flag (if sv_live sv then true
          else match d_cbs d with [] => true | _ => false end && d_binpkt_none d && pv_eqb (d_sid d) PNone) B_RESET)%nat.
 
+(* an expectation that is not specified (a handler raises): the history leaves the domain here *)
+Definition judged {A} (exp : option A) (k : A -> nat * option sview) : nat * option sview :=
+  match exp with None => (O, None) | Some x => k x end.
+Definition frames_all (t : Z) (data : pv) (nss : list str) : option (list pv) :=
+  fold_right (fun n acc => match frames_of t data n None, acc with
+                           | Ok f, Some l => Some (f ++ l) | _, _ => None end) (Some []) nss.
+
 (* one operation: model state before, server view before, implementation dump before,
-   the operation, what the implementation did, its dump after -> failed clauses, view after *)
+   the operation, what the implementation did, its dump after -> failed clauses, view after
+   (None = the history left the specified domain) *)
 Definition c08_step (c : cfg) (s : cli) (sv : sview) (dprev : cdump) (o : op) (obs : list eff) (d : cdump)
-  : nat * sview :=
+  : nat * option sview :=
   match o with
   | CConnect nss auth _ wait eio_fails window =>
       if sv_live sv then
         (* the specification's client is connected: 'Already connected', nothing changes *)
         if d_connected dprev
-        then (flag (list_eqb eff_eqb obs [Raised ConnectionError] && dump_eqb d dprev) B_WAIT, sv)
-        else (O, sv)
+        then (flag (list_eqb eff_eqb obs [Raised ConnectionError] && dump_eqb d dprev) B_WAIT, Some sv)
+        else (O, None)
       else
       let req := match nss with None => derived_namespaces c | Some l => l end in
-      if negb (eiost_eqb (d_eio dprev) EDisconnected) then (O, mkSV [] false req false false) else
+      if negb (eiost_eqb (d_eio dprev) EDisconnected) then (O, None) else
       if eio_fails then
         let sv' := mkSV [] false req false false in
+        judged (fold_opt (fun n => notify c ev_connect_error n [eio_error_message]) req) (fun calls =>
         ((flag (ends_raise ConnectionError obs && match sent_of obs with [] => true | _ => false end &&
-                calls_match (fold_opt (fun n => notify c ev_connect_error n [eio_error_message]) req)
-                            (calls_for c ev_names_conn obs)) B_WAIT + c08_state sv' d)%nat, sv')
+                calls_eqb calls (calls_for c ev_names_conn obs)) B_WAIT + c08_state sv' d)%nat, Some sv'))
       else
       let authv := if truthy auth then auth else PDict [] in
-      let want := fold_right (fun n acc => match frames_of CONNECT authv n None, acc with
-                                           | Ok f, Some l => Some (f ++ l) | _, _ => None end) (Some []) req in
+      judged (frames_all CONNECT authv req) (fun w =>
       let sent := sent_of obs in
-      let sends_ok :=
-        match want with
-        | Some w => list_eqb pv_eqb (firstn (List.length w) sent) w &&
-                    forallb (fun p => negb (is_connect_frame p)) (skipn (List.length w) sent)
-        | None => true
-        end in
+      let sends_ok := list_eqb pv_eqb (firstn (List.length w) sent) w &&
+                      forallb (fun p => negb (is_connect_frame p)) (skipn (List.length w) sent) in
       (* the model state in which the window starts: after eio connect + the CONNECT packets *)
-      let s0 := fst (fst (api_connect c nss auth false false [] s)) in
+      let s0 := fst (fst (connect_begin c nss auth false s)) in
       let sv0 := mkSV [] true req true false in
       if wait then
-        let '(sv1, calls, disc) := sv_window c s0 sv0 window in
+        let '(sv1, ocalls, disc) := sv_window c s0 sv0 window in
+        judged ocalls (fun calls =>
         if set_eqb (map fst (sv_acc sv1)) req then
           let sv' := mkSV (sv_acc sv1) true req (sv_clean sv1 && negb disc) (sv_ever sv1) in
           ((flag sends_ok B_SENDS +
-            flag (ends_ret obs && calls_match calls (calls_for c ev_names_conn obs)) B_WAIT +
-            c08_state sv' d)%nat, sv')
+            flag (ends_ret obs && calls_eqb calls (calls_for c ev_names_conn obs)) B_WAIT +
+            c08_state sv' d)%nat, Some sv')
         else
           let sv' := mkSV [] false req false false in
           ((flag sends_ok B_SENDS +
-            flag (ends_raise ConnectionError obs && calls_match calls (calls_for c ev_names_conn obs)) B_WAIT +
-            c08_state sv' d)%nat, sv')
+            flag (ends_raise ConnectionError obs && calls_eqb calls (calls_for c ev_names_conn obs)) B_WAIT +
+            c08_state sv' d)%nat, Some sv'))
       else
-        ((flag sends_ok B_SENDS + flag (ends_ret obs) B_WAIT + c08_state sv0 d)%nat, sv0)
+        ((flag sends_ok B_SENDS + flag (ends_ret obs) B_WAIT + c08_state sv0 d)%nat, Some sv0))
   | CMsg payload tbl =>
-      if negb (sv_live sv) then (c08_state sv d, sv) else
+      if negb (sv_live sv) then (c08_state sv d, Some sv) else
       let p := classify s payload tbl in
       let st := sv_packet c (sid s) sv p in
       let sv1 := ps_view st in
-      (* the last namespace is gone: the client closes the transport *)
-      let sv' := match p, sv_acc sv1 with
-                 | SDisconnect _, [] => if ps_dom st then mkSV [] false (sv_req sv1) false false else sv1
-                 | _, _ => sv1 end in
-      let once :=
-        match p with
-        | SOther => true
-        | SDisconnect _ => negb (ps_dom st) || negb (sv_clean sv) || calls_match (ps_calls st) (calls_for c ev_names_all obs)
-        | _ => negb (ps_dom st) || calls_match (ps_calls st) (calls_for c ev_names_all obs)
-        end in
-      ((flag once B_ONCE + c08_state sv' d)%nat, sv')
+      match p, sv_acc sv with
+      | SDisconnect _, [] => (O, None)            (* DISCONNECT while no namespace is connected: outside the domain *)
+      | SOther, _ => (c08_state sv d, Some sv)
+      | _, _ =>
+          if negb (ps_dom st) then (c08_state sv1 d, Some sv1) else
+          judged (ps_calls st) (fun calls =>
+          (* the last namespace is gone: the client closes the transport *)
+          let sv' := match p, sv_acc sv1 with
+                     | SDisconnect _, [] => mkSV [] false (sv_req sv1) false false
+                     | _, _ => sv1 end in
+          let once := match p with
+                      | SDisconnect _ => negb (sv_clean sv) || calls_eqb calls (calls_for c ev_names_all obs)
+                      | _ => calls_eqb calls (calls_for c ev_names_all obs)
+                      end in
+          ((flag once B_ONCE + c08_state sv' d)%nat, Some sv'))
+      end
   | CEmit _ _ ns _ | CSend _ ns _ | CCall _ _ ns _ _ =>
       let n := ns_or_default ns in
       let ok :=
@@ -189,43 +198,38 @@ Definition c08_step (c : cfg) (s : cli) (sv : sview) (dprev : cdump) (o : op) (o
         then negb (existsb (exn_eqb BadNamespaceError) (raised_of obs)) &&
              match sent_of obs with [] => false | _ => true end
         else list_eqb eff_eqb obs [Raised BadNamespaceError] in
-      ((flag ok B_BADNS + c08_state sv d)%nat, sv)
+      ((flag ok B_BADNS + c08_state sv d)%nat, Some sv)
   | CDisconnect =>
       let sv' := sv_down sv in
       if sv_live sv then
-        let want := fold_right (fun n acc => match frames_of DISCONNECT PNone n None, acc with
-                                             | Ok f, Some l => Some (f ++ l) | _, _ => None end)
-                               (Some []) (map fst (sv_acc sv)) in
-        ((flag (match want with Some w => list_eqb pv_eqb (sent_of obs) w | None => true end) B_SENDS +
-          flag (negb (sv_clean sv) ||
-                calls_match (fold_opt (fun n => notify c ev_disconnect n [r_client_disconnect]) (map fst (sv_acc sv)))
-                            (calls_for c ev_names_all obs)) B_ONCE +
-          c08_state sv' d)%nat, sv')
-      else ((flag (match obs with [] => true | _ => false end) B_ONCE + c08_state sv' d)%nat, sv')
+        judged (fold_opt (fun n => notify c ev_disconnect n [r_client_disconnect]) (map fst (sv_acc sv))) (fun calls =>
+        judged (frames_all DISCONNECT PNone (map fst (sv_acc sv))) (fun w =>
+        ((flag (list_eqb pv_eqb (sent_of obs) w) B_SENDS +
+          flag (negb (sv_clean sv) || calls_eqb calls (calls_for c ev_names_all obs)) B_ONCE +
+          c08_state sv' d)%nat, Some sv')))
+      else ((flag (match obs with [] => true | _ => false end) B_ONCE + c08_state sv' d)%nat, Some sv')
   | CLoss | CServerClose =>
       let sv' := sv_down sv in
       let reason := match o with CLoss => r_transport_error | _ => r_server_disconnect end in
       if sv_live sv then
-        ((flag (negb (sv_clean sv) ||
-                calls_match (fold_opt (fun n => notify c ev_disconnect n [reason]) (map fst (sv_acc sv)))
-                            (calls_for c ev_names_all obs)) B_ONCE +
+        judged (fold_opt (fun n => notify c ev_disconnect n [reason]) (map fst (sv_acc sv))) (fun calls =>
+        ((flag (negb (sv_clean sv) || calls_eqb calls (calls_for c ev_names_all obs)) B_ONCE +
           flag (match sent_of obs with [] => true | _ => false end) B_SENDS +
-          c08_state sv' d)%nat, sv')
-      else ((flag (match obs with [] => true | _ => false end) B_ONCE + c08_state sv' d)%nat, sv')
+          c08_state sv' d)%nat, Some sv'))
+      else ((flag (match obs with [] => true | _ => false end) B_ONCE + c08_state sv' d)%nat, Some sv')
   end.
 
-(* union of the failed clauses over a history *)
-Fixpoint or_mask (fuel : nat) (a b : nat) : nat :=        (* bitwise or on small masks *)
-  match fuel with
-  | O => O
-  | S f => ((if Nat.odd a || Nat.odd b then 1 else 0) + 2 * or_mask f (Nat.div2 a) (Nat.div2 b))%nat
-  end.
+(* the clauses failed by the FIRST operation that fails any (afterwards the server's view and the
+   implementation have diverged and further flags would be consequences) *)
 Fixpoint c08_steps (c : cfg) (s : cli) (sv : sview) (dprev : cdump) (ops : list op)
          (obs : list (list eff * cdump)) : nat :=
   match ops, obs with
   | o :: r, (e, d) :: es =>
-      let '(m, sv') := c08_step c s sv dprev o e d in
-      or_mask 10 m (c08_steps c (fst (step c s o)) sv' d r es)
+      match c08_step c s sv dprev o e d with
+      | (O, Some sv') => c08_steps c (fst (step c s o)) sv' d r es
+      | (O, None) => O
+      | (m, _) => m
+      end
   | _, _ => O
   end.
 Definition c08_mask (k : ccase) : nat := c08_steps (k_cfg k) cli_init sv_init dump_init (k_ops k) (k_obs k).
@@ -236,16 +240,16 @@ Fixpoint c08_first (c : cfg) (s : cli) (sv : sview) (dprev : cdump) (ops : list 
          (obs : list (list eff * cdump)) (i : nat) : option (nat * nat * sview) :=
   match ops, obs with
   | o :: r, (e, d) :: es =>
-      let '(m, sv') := c08_step c s sv dprev o e d in
-      match m with
-      | O => c08_first c (fst (step c s o)) sv' d r es (S i)
-      | _ => Some (i, m, sv)
+      match c08_step c s sv dprev o e d with
+      | (O, Some sv') => c08_first c (fst (step c s o)) sv' d r es (S i)
+      | (O, None) => None
+      | (m, _) => Some (i, m, sv)
       end
   | _, _ => None
   end.
 Definition c08_where (k : ccase) := c08_first (k_cfg k) cli_init sv_init dump_init (k_ops k) (k_obs k) 0.
-
-(* the checker applied to the model's own run *)
-Definition model_obs (c : cfg) (ops : list op) : list (list eff * cdump) :=
-  map (fun se => (filter observable (snd se), dump_of (fst se))) (snd (run c cli_init ops)).
-Definition model_case (c : cfg) (ops : list op) : ccase := mkCase c ops (model_obs c ops).
+(* code used by the harness: bit 1 = correspondence, bit 2 = property, bits 4..128 = clauses of the
+   first failing operation, index of that operation times 1024 *)
+Definition c08_code (k : ccase) : nat :=
+  ((if corr_ok k then 0 else 1) +
+   match c08_where k with Some (i, m, _) => 2 + m + 1024 * i | None => 0 end)%nat.
